@@ -64,3 +64,9 @@ Theorem C14_code_facts :
   interrupt_is_unbounded = true /\ ops_use_plain_interrupt = true.
 Proof. repeat split; reflexivity. Qed.
 Print Assumptions C14_code_facts.
+
+(** every accepted update restarts the stages, so the decision is taken afresh with the new toxicity on
+    every open connection whatever else the update changed (regenerated) *)
+Theorem C14_update_always_restarts : update_always_restarts = true.
+Proof. reflexivity. Qed.
+Print Assumptions C14_update_always_restarts.
